@@ -77,3 +77,80 @@ func vhC17Hijack() {
 		vAssert("closed-after-handler", c.closed == 1)
 	}
 }
+
+// c17Conn records the read deadline the server leaves on the connection.
+type c17Conn struct {
+	vsSegConn
+	readDeadline time.Time
+	deadlineSets int
+}
+
+func (c *c17Conn) SetDeadline(t time.Time) error {
+	c.readDeadline = t
+	c.deadlineSets++
+	return nil
+}
+func (c *c17Conn) SetReadDeadline(t time.Time) error {
+	c.readDeadline = t
+	c.deadlineSets++
+	return nil
+}
+
+// vhC17HijackAfterOtherRequests: the hijacking request is not the first on
+// its connection — an ordinary request, or one whose handler called
+// HijackSetNoResponse(true) without hijacking, came before it — and the
+// request may carry a per-request read timeout (HeaderReceived): the hijacked
+// request still gets its response, and the hijack handler receives a
+// connection without a read deadline left over from the server.
+func vhC17HijackAfterOtherRequests() {
+	first := vChoose("firstRequest", 3) // none, ordinary, sets NoResponse without hijacking
+	perRequestTimeout := vBool("perRequestReadTimeout")
+	c := &c17Conn{}
+	if first > 0 {
+		c.segs = append(c.segs, []byte("GET /first HTTP/1.1\r\nHost: a\r\n\r\n"))
+	}
+	c.segs = append(c.segs, []byte("GET /h HTTP/1.1\r\nHost: a\r\n\r\n"), []byte("later-bytes"))
+	s := &Server{NoDefaultDate: true, NoDefaultServerHeader: true}
+	s.ReduceMemoryUsage = vBool("reduceMemory")
+	if perRequestTimeout {
+		s.HeaderReceived = func(h *RequestHeader) RequestConfig {
+			return RequestConfig{ReadTimeout: time.Second}
+		}
+	}
+	var got []byte
+	deadlineAtHijack := time.Time{}
+	wroteAtHijack := 0
+	ran := 0
+	done := make(chan struct{})
+	s.Handler = func(ctx *RequestCtx) {
+		if string(ctx.Path()) == "/first" {
+			if first == 2 {
+				ctx.HijackSetNoResponse(true) // but no Hijack: this request is answered normally
+			}
+			ctx.SetBodyString("first")
+			return
+		}
+		ctx.SetBodyString("hijacked")
+		ctx.Hijack(func(hc net.Conn) {
+			ran++
+			deadlineAtHijack = c.readDeadline
+			wroteAtHijack = len(c.wrote)
+			got, _ = io.ReadAll(hc)
+			close(done)
+		})
+	}
+	s.ServeConn(c)
+	select {
+	case <-done:
+	case <-time.After(time.Second):
+	}
+	vAssert("hijack-handler-ran-once", ran == 1)
+	vAssert("later-bytes-reach-the-hijack-handler", string(got) == "later-bytes")
+	rs, ok := vsParseResponses(c.wrote[:wroteAtHijack])
+	want := 1
+	if first > 0 {
+		want = 2
+	}
+	vAssert("every-request-answered-before-the-hijack", ok && len(c02Final(rs)) == want && rs[len(rs)-1].body == "hijacked")
+	vAssert("no-read-deadline-left-on-the-hijacked-connection", deadlineAtHijack.IsZero())
+}
